@@ -27,7 +27,7 @@ TEMPLATES = {"t-empty": {}, "t-len": {"length": "m"}, "t-depth": {"depth": "m"}}
 
 
 def make_ops(thorough):
-    ids = ["a", "b"] + (["c"] if thorough else [])
+    ids = ["a", ""] + (["c"] if thorough else [])  # (the empty string is a legal id)
     ops = []
     for i in ids:
         for k in MAPPINGS:
@@ -155,8 +155,9 @@ def apply(s, op, part, hist):
         if kind == "add":
             mapping = MAPPINGS[op[2]](s)
             model_mapping = None if mapping is None else dict(mapping)  # content at call time
-            # (system 'b' is always created read-only: the flag is descriptive, the notifications are the same)
-            result = mgr.AddUnitSystem(op[1], "caption " + op[1], mapping, op[1] == "b")
+            # (system '' and every system built from the caller's shared dict are created read-only: the flag is
+            # descriptive - the mapping is still the system's own copy and the notifications are the same)
+            result = mgr.AddUnitSystem(op[1], "caption " + op[1], mapping, op[1] == "" or op[2] == "shared")
         elif kind == "remove":
             mgr.RemoveUnitSystem(op[1])
         elif kind == "cur":
@@ -183,7 +184,7 @@ def apply(s, op, part, hist):
                     return ("raise", type(e).__name__)
 
             result = (
-                tuple(q(lambda: mgr.GetUnitSystemById(i).GetId()) for i in ("a", "b", "c", "system 1", "nope")),
+                tuple(q(lambda: mgr.GetUnitSystemById(i).GetId()) for i in ("a", "", "c", "system 1", "nope")),
                 tuple(q(lambda: mgr.GetCategoryDefaultUnit(c)) for c in ("length", "depth", "time")),
                 tuple(q(lambda: mgr.GetQuantityDefaultUnit(ObtainQuantity(u, c))) for u, c in (("m", "length"), ("km", "depth"), ("s", "time"))),
                 tuple(q(lambda: (lambda r: (r.GetValue(), r.GetUnit(), r.GetCategory()))(mgr.ConvertScalarToCurrent(Scalar(1500.0, u, c)))) for u, c in (("m", "length"), ("km", "depth"), ("s", "time"))),
@@ -288,7 +289,7 @@ def apply(s, op, part, hist):
             return ("ok", (1500.0, u, c)) if to is None else ("ok", (db.Convert(c, u, to, 1500.0), to, c))
 
         exp = (
-            tuple(("ok", i) if i in model.systems else ("raise", "ValueError") for i in ("a", "b", "c", "system 1", "nope")),
+            tuple(("ok", i) if i in model.systems else ("raise", "ValueError") for i in ("a", "", "c", "system 1", "nope")),
             tuple(("ok", model.current_default_unit(c)) for c in ("length", "depth", "time")),
             tuple(("ok", model.current_default_unit(c) or u) for u, c in (("m", "length"), ("km", "depth"), ("s", "time"))),
             tuple(conv_exp(u, c) for u, c in (("m", "length"), ("km", "depth"), ("s", "time"))),
